@@ -599,11 +599,26 @@ def _build(case):
         # asked for) when only some of its edges are there, the remaining edges are added, and the index is built
         # again -- the final index must cover every edge of the network as it is then
         hr = random.Random(repr(case["tracks"]))
-        stage = hr.randrange(1, len(trs)) if len(trs) >= 2 and hr.random() < 0.34 else None
-        how = hr.choice(["index", "index", "bbox"])
+        stage = hr.randrange(1, len(trs)) if len(trs) >= 2 and hr.random() < 0.45 else None
+        how = hr.choice(["index", "index", "bbox", "incremental", "incremental"])
+        if stage is not None and how == "incremental":
+            # the index is built when only the edges that span the bounding box are there; the other edges (all
+            # inside that extent) are then registered one by one through Network.addEdge, and the index is NOT rebuilt
+            xs = [p[0] for t in case["tracks"] for p in t]
+            ys = [p[1] for t in case["tracks"] for p in t]
+            ext = (min(xs), max(xs), min(ys), max(ys))
+            first = [k for k, t in enumerate(case["tracks"])
+                     if any(p[0] in ext[:2] or p[1] in ext[2:] for p in t)]
+            later = [k for k in range(len(trs)) if k not in first]
+            if later:
+                order = first + later
+                trs = [trs[k] for k in order]
+                stage = len(first)
+            else:
+                how = "index"
         for k, t in enumerate(trs):
             if stage is not None and k == stage:
-                if how == "index":
+                if how in ("index", "incremental"):
                     M.call(net.createSpatialIndex, res, case["margin"], False)
                 else:
                     M.call(net.bbox)
@@ -611,7 +626,8 @@ def _build(case):
             e = Edge("e%d" % k, t)
             net.addEdge(e, Node("s%d" % k, t.getObs(0).position.copy()),
                         Node("t%d" % k, t.getObs(t.size() - 1).position.copy()))
-        net.createSpatialIndex(res, case["margin"], False)
+        if not (stage is not None and how == "incremental"):
+            net.createSpatialIndex(res, case["margin"], False)
         return net.spatial_index, trs
     col = TrackCollection(trs)
     return SpatialIndex(col, res, case["margin"], False), trs
@@ -867,7 +883,8 @@ def classify(case, witness):
 
 # floors for the call-history workloads added in session 3 (a run in which they were silently skipped is inconclusive)
 _floors_base = floors
-_FLOORS_EXTRA = {'counters': {'network_staged_build:index': 50, 'network_staged_build:bbox': 20}}
+_FLOORS_EXTRA = {'counters': {'network_staged_build:index': 50, 'network_staged_build:bbox': 20,
+                              'network_staged_build:incremental': 30}}
 
 
 def floors(tier):
